@@ -1185,6 +1185,40 @@ def isscalar(x):
     return rnp.isscalar(x)
 
 
+def bincount(x, weights=None, minlength=0):
+    """number of occurrences of each value 0..minlength-1 (symbolic input: the length must be fixed by minlength)"""
+    if all_concrete(x, weights):
+        return delegate(rnp.bincount, x, weights=weights, minlength=minlength)
+    if weights is not None:
+        raise NotModelled('bincount with weights')
+    xa = asarray(x).ravel()
+    n = operator.index(minlength)
+    els = list(xa.a.reshape(-1))
+    for e in els:
+        if core.is_sym(e):
+            if core.decide((e < 0).t):
+                raise ValueError("'list' argument must have no negative elements")
+            core.lazy_assert((e < n).t, 'bincount value within minlength (a larger value would grow the result)')
+        elif e < 0:
+            raise ValueError("'list' argument must have no negative elements")
+    out = []
+    for k in range(n):
+        tot = 0
+        for e in els:
+            tot = tot + core._as_num(e == k) if core.is_sym(e) else tot + (1 if e == k else 0)
+        out.append(tot)
+    return asarray(out, dtype=DTI) if out else zeros(0, dtype=DTI)
+
+
+def isclose(a, b, rtol=1e-05, atol=1e-08, equal_nan=False):
+    """|a - b| <= atol + rtol * |b| for finite values; equal infinities are close"""
+    if all_concrete(a, b):
+        return delegate(rnp.isclose, a, b, rtol=rtol, atol=atol, equal_nan=equal_nan)
+    a, b = asarray(a), asarray(b)
+    near = absolute(a - b) <= (atol + rtol * absolute(b))
+    return logical_or(a == b, logical_and(logical_and(isfinite(a), isfinite(b)), near))
+
+
 def atleast_1d(x):
     if isinstance(x, Rec0d):
         return x._rec
